@@ -101,7 +101,12 @@ func MakeReceptorSAN(dnsNames []string, ipAddresses []net.IP, nodeIDs []string) 
 		if err != nil {
 			return nil, err
 		}
-		rawValues = append(rawValues, asn1.RawValue{Tag: 0, Class: 2, IsCompound: true, Bytes: asnOtherName[2:]})
+		// strip the SEQUENCE header, whose length depends on the size of the node ID (2 bytes only up to 127 content bytes)
+		var otherNameSeq asn1.RawValue
+		if _, err = asn1.Unmarshal(asnOtherName, &otherNameSeq); err != nil {
+			return nil, err
+		}
+		rawValues = append(rawValues, asn1.RawValue{Tag: 0, Class: 2, IsCompound: true, Bytes: otherNameSeq.Bytes})
 	}
 	sanBytes, err := asn1.Marshal(rawValues)
 	if err != nil {
